@@ -72,6 +72,34 @@ def run(tier, seed, out, drv, facts):
         out.case((json.dumps(t), json.dumps(s), json.dumps(x)), x != t and x["t"] != "int", sample={"T": t, "S": s, "x": x, "verdicts": dict(zip(["T", "S"] + FORMS, progcheck.verdicts(got)))})
         for f, v in zip(FORMS, progcheck.verdicts(got)[2:]):
             out.count(f"{f}:{v}")
+    # leaf types whose VALUES are containers or None (tuple[int, int], Optional[int]): the structure of a value as a
+    # PyTree of L stops at the leaves of type L, it is not what flattening the raw value gives
+    from gen_prog import TUP_II
+
+    def subst(tree, leaf):
+        if tree["t"] == "int":
+            return leaf
+        if "xs" in tree:
+            return dict(tree, xs=[subst(c, leaf) for c in tree["xs"]])
+        if "vals" in tree:
+            return dict(tree, vals=[subst(c, leaf) for c in tree["vals"]])
+        return tree
+
+    OPT = {"t": "union", "ts": [INT, {"t": "none"}]}
+    small = pool(12)
+    for lname, lt, leaf in (("tuple[int,int]", TUP_II, {"t": "tuple", "xs": [ival(1), ival(2)]}), ("Optional[int]", OPT, ival(3))):
+        fam = [subst(t, leaf) for t in small]
+        trip = list(itertools.product(fam, repeat=3))
+        for t, s_, x in (trip if thorough else rng.sample(trip, 250)):
+            body = [{"op": "check", "l": {"t": "pytree", "l": lt, "s": "T"}, "x": t},
+                    {"op": "check", "l": {"t": "pytree", "l": lt, "s": "S"}, "x": s_}]
+            for form in FORMS:
+                body.append({"op": "check", "l": {"t": "pytree", "l": lt, "s": form}, "x": x})
+            body.append({"op": "print"})
+            prog = [{"op": "ctx", "body": body, "exit": "ret"}]
+            got, want = progcheck.compare_program(out, drv, facts, prog, "container-leaves", rng=rng, as_violation=as_violation, shrink=False)
+            out.case(("container-leaves", lname, json.dumps(t), json.dumps(s_), json.dumps(x)), True,
+                     sample={"leaf_type": lname, "T": t, "S": s_, "x": x, "verdicts": dict(zip(["T", "S"] + FORMS, progcheck.verdicts(got)))})
     # leaf types whose check rolls the context back in the middle of the leaf loop (a Union of array
     # annotations whose first alternative fails on a matrix leaf, a structure-less PyTree of such): binding
     # and comparing the structure name must not depend on what the leaf checks do to the context
